@@ -164,18 +164,49 @@ func checkC05(c *Ctx) {
 	}
 }
 
-// insideOnceAny: f is (nested in) a function literal passed to sync.Once.Do.
+// insideOnceAny: f runs only under a sync.Once: it is (nested in) a function passed to
+// (*sync.Once).Do, or every call site of it (calls and go statements) is in such a function.
 func (m *Model) insideOnceAny(f *ssa.Function) bool {
-	for g := f; g != nil; g = g.Parent() {
-		if mc := m.Sym.closureOf[g]; mc != nil {
-			if refs := mc.Referrers(); refs != nil {
-				for _, r := range *refs {
-					if _, ok := isCallTo(valueOf(r), "(*sync.Once).Do"); ok {
-						return true
+	if m.onceRoots == nil {
+		m.onceRoots = map[*ssa.Function]bool{}
+		for _, g := range m.Funcs {
+			eachInstr(g, func(in ssa.Instruction) {
+				if call, ok := isCallTo(valueOf(in), "(*sync.Once).Do"); ok && len(call.Call.Args) == 2 {
+					for _, t := range m.funcValueTargets(call.Call.Args[1]) {
+						m.onceRoots[t] = true
 					}
 				}
-			}
+			})
 		}
 	}
-	return false
+	var only func(g *ssa.Function, seen map[*ssa.Function]bool) bool
+	only = func(g *ssa.Function, seen map[*ssa.Function]bool) bool {
+		if seen[g] {
+			return true
+		}
+		seen[g] = true
+		sites := m.callers[g]
+		if m.onceRoots[g] {
+			// a method value passed to Do may also be called directly
+			for _, cs := range sites {
+				if !only(cs.Caller, seen) {
+					return false
+				}
+			}
+			return true
+		}
+		if g.Parent() != nil {
+			return only(g.Parent(), seen)
+		}
+		if len(sites) == 0 {
+			return false
+		}
+		for _, cs := range sites {
+			if !only(cs.Caller, seen) {
+				return false
+			}
+		}
+		return true
+	}
+	return only(f, map[*ssa.Function]bool{})
 }
